@@ -335,8 +335,11 @@ func (pb prefixDBBatch) GetByteSize() (int, error) {
 	return pb.source.GetByteSize()
 }
 
-// Returns a slice of the same length (big endian)
-// except incremented by one.
+// Returns the smallest byte string that is greater than every string having bz as a prefix: bz
+// (big endian) incremented by one and cut after the incremented byte. Without the cut the carry
+// leaves trailing zero bytes (the bound of "p\xff" would be "q\x00"), and the key "q", which is not
+// in the namespace, would lie inside the range - a reverse iterator then starts on it and the
+// prefix iterator gives up.
 // Returns nil on overflow (e.g. if bz bytes are all 0xFF)
 // CONTRACT: len(bz) > 0
 func cpIncr(bz []byte) (ret []byte) {
@@ -347,7 +350,7 @@ func cpIncr(bz []byte) (ret []byte) {
 	for i := len(bz) - 1; i >= 0; i-- {
 		if ret[i] < byte(0xFF) {
 			ret[i]++
-			return
+			return ret[:i+1]
 		}
 		ret[i] = byte(0x00)
 		if i == 0 {
